@@ -136,6 +136,17 @@ func driverSnap(c *Ctx) {
 				func() ast.ItemNode {
 					return ast.NewListNode("zz9", "...").FillVariables(map[string]interface{}{"zz9": ast.NewListNode(ast.NewBooleanNode(true), "...")})
 				},
+				// ... a name the expansion generates next to a variable that carries that very name already, with nothing
+				// but the repeat count in the map (and with a key that names nothing beside it)
+				func() ast.ItemNode {
+					return ast.NewListNode(ast.NewListNode(ast.NewUintNode(1, n), "..."), ast.NewUintNode(1, n+"[0]")).FillVariables(map[string]interface{}{"...": 1})
+				},
+				func() ast.ItemNode {
+					return ast.NewListNode(ast.NewUintNode(1, n), "...", ast.NewUintNode(1, n+"[1]")).FillVariables(map[string]interface{}{"...": 2})
+				},
+				func() ast.ItemNode {
+					return ast.NewListNode(ast.NewListNode(ast.NewBooleanNode(n), "..."), it, ast.NewASCIINodeVariable(n+"[1]", 0, -1)).FillVariables(map[string]interface{}{"...": 1, "nothing9": 1})
+				},
 			} {
 				var d ast.ItemNode
 				if p, _ := try(func() { d = build() }); !p {
@@ -155,6 +166,14 @@ func driverSnap(c *Ctx) {
 				args[j] = g.newVar()
 			}
 			common := ast.NewListNode(args...)
+			switch g.pick(4) {
+			case 0: // more variables below than elements at the top
+				common = ast.NewListNode(ast.NewUintNode(1, args...), g.newVar())
+			case 1: // none at all
+				common = ast.NewListNode(ast.NewUintNode(1, 1), ast.NewListNode())
+			case 2: // ... and deeper
+				common = ast.NewListNode(ast.NewListNode(ast.NewIntNode(2, args...)), ast.NewListNode(ast.NewBooleanNode(g.newVar(), g.newVar())))
+			}
 			p1 := ast.NewListNode(common, ast.NewUintNode(1, g.newVar()), g.newVar())
 			p2 := ast.NewListNode(common, ast.NewIntNode(2, g.newVar()))
 			p3 := ast.NewListNode(common, g.newVar(), g.newVar(), g.newVar()).FillVariables(map[string]interface{}{})
